@@ -759,6 +759,15 @@ pub fn check(args: &[String]) -> i32 {
             }
         }
     }
+    for r in [&clean, &faults] {
+        for (k, n) in &r.stats.counters {
+            if let Some(key) = k.strip_prefix("known-finding.") {
+                if *n > 0 {
+                    known_hits.insert(key.to_string());
+                }
+            }
+        }
+    }
     for k in &known_hits {
         println!("KNOWN-FINDING: property={} {}", prop, k);
     }
